@@ -21,6 +21,7 @@ const char *const kPatternMenu[] = {
     "%{file}:%{line} %{function} - %{message}",
     "<%{seq?}> %{message}%%",
     "%{type:>8}:%{message}",
+    "%{if-warning}W: %{message}%{endif}", // nothing at all for the other types: an empty (not an unformatted) text
 };
 const char *const kFiles[] = { nullptr, "main.cpp", "/src/app/worker.cpp", "../lib/net.cpp" };
 const char *const kFunctions[] = { nullptr, "int main(int, char**)", "void Worker::run()",
